@@ -164,28 +164,29 @@ const (
 var errClassNames = []string{"ok", "not-found", "scope-disposed", "provider-disposed", "ctor-error", "ctor-panic", "circular", "lifetime-conflict", "already-registered", "singleton-not-initialized", "nil-instance", "disposal-error", "other"}
 
 type OpResult struct {
-	GID       int // global op id
-	Task      int
-	Idx       int
-	Op        Op
-	Handle    int // resolved handle id (-1 none)
-	NewH      int // handle created (-1)
-	StartSeq  int
-	EndSeq    int
-	Done      bool
-	Err       error
-	Class     int
-	Classes   []int // every class recognisable in the error chain
-	Panic     any
-	PanicStk  string
-	Aborted   string
-	Insts     []int // resolved instance ids (group: in order)
-	IsNilRes  bool  // (nil, nil) result
-	TypedNil  bool  // a typed-nil pointer was returned as a service
-	Builtin   any   // resolved builtin value
-	Sentinel  *sentinelErr
-	PanicVal  any
-	DisposalN int
+	GID             int // global op id
+	Task            int
+	Idx             int
+	Op              Op
+	Handle          int // resolved handle id (-1 none)
+	NewH            int // handle created (-1)
+	StartSeq        int
+	EndSeq          int
+	Done            bool
+	Err             error
+	Class           int
+	Classes         []int // every class recognisable in the error chain
+	Panic           any
+	PanicStk        string
+	Aborted         string
+	Insts           []int // resolved instance ids (group: in order)
+	IsNilRes        bool  // (nil, nil) result
+	TypedNil        bool  // a typed-nil pointer was returned as a service
+	CtxNotCancelled []int // OpCancel: handles whose derived context was not cancelled at once
+	Builtin         any   // resolved builtin value
+	Sentinel        *sentinelErr
+	PanicVal        any
+	DisposalN       int
 }
 
 // classify an error returned by godi.
